@@ -595,6 +595,20 @@ class LoopFn:
                 raise Unsupported("if with init/var")
             th = inn[1]
             el = inn[2] if len(inn) > 2 else None
+            c0 = inn[0]
+            while c0.get("kind") in SKIP or (c0.get("kind") in CASTS and c0.get("castKind") in ("NoOp", "IntegralToBoolean")):
+                c0 = self.inner(c0)[0]
+            if c0.get("kind") == "BinaryOperator" and c0.get("opcode") in ("&&", "||"):
+                # the lazy operator would copy what follows once per operand: when that part contains a loop and the condition has no
+                # side effect, the condition is evaluated to a boolean first (a join point)
+                dup = (([el] if el else []) + rest) if c0["opcode"] == "&&" else [th]
+                r2, a2, d2, f2 = set(), set(), set(), set()
+                self.scan(inn[0], r2, a2, d2, f2)
+                if any(self.has_loop(x) for x in dup) and not a2 and "store" not in f2 and "call" not in f2:
+                    c = self.tmp("b")
+                    joined = self.E(inn[0], lambda v: "(Go %s)" % v)
+                    return "(match (%s : cres %s Z) with Go %s => %s | Done r => Done r | Oob => Oob | NoFuel => NoFuel end)" % (
+                        joined, self.rtype, c, ite(c, lambda: self.S([th], nxt, ctx), lambda: self.S([el] if el else [], nxt, ctx)))
             if rest and not self.always_jumps(th) and (el is None or not self.always_jumps(el)) and not self.has_jump(s):
                 # both branches can fall through to a non-empty rest: a join point instead of two copies of the rest
                 refs, assigned, declared, flags = set(), set(), set(), set()
@@ -657,6 +671,11 @@ class LoopFn:
             inn = self.inner(s)
             return len(inn) > 2 and self.always_jumps(inn[1]) and self.always_jumps(inn[2])
         return False
+
+    def has_loop(self, s):
+        if s.get("kind") in ("WhileStmt", "DoStmt", "ForStmt"):
+            return True
+        return any(self.has_loop(c) for c in self.inner(s))
 
     def has_return(self, s):
         if s.get("kind") == "ReturnStmt":
